@@ -37,6 +37,7 @@ func c16(r *core.Run) {
 	r.Rule("D1", "guarded-by discipline for Service and work-item fields: a field with a write outside configuration and initialisation is accessed only under the queue mutex, or only atomically, or is covered by a named exemption (guarded lazy default)", 6)
 	r.Rule("D2", "logger: the in-memory logger's buffer and log.Logger are used only with the logger's mutex held (configuration setters aside)", 2)
 	r.Rule("D3", "mock store: the resource map is accessed only by transaction methods (alive only between Read/Write and Close) and the configuration helper Add", 2)
+	r.Rule("D4", "badgerstore configuration is frozen in use: fields of Store and QueryStore are written only by constructors and by the store's own exported configuration methods (Set*, OnChange, BeforeChange, OnQueryChange, AddIndex), which no transaction, query or rebuild path calls; transactions on different ids take different key locks and run in parallel, so any write on such a path is unsynchronised", 6)
 	r.Rule("A2", "group confinement (premise of 'state touched only from a group's callbacks needs no user synchronisation'): the lookup of a group's pending work item and the register/append that follows are one critical section (same obligations as C01.A2); otherwise two producers create two work items for one group, two workers run the group's callbacks at once and handler state races", 4)
 	r.Rule("O1", "request objects own their memory: in every function that builds a request object (Request, queryRequest, getRequest) each store into a field of the request or of its resource part goes to memory allocated in that function - not through a pointer into a longer-lived object (the query event, the service); requests of one query event or Parallel resource are processed concurrently, so a write through such a pointer is an unsynchronised write to shared state", 3)
 	r.Rule("O2", "lookups share no scratch state (shared with C06.R6): no function reachable from Mux.GetHandler writes Mux / node / handler state or appends into a slice or array held there; lookups run on the listener goroutine and on every goroutine calling With / Resource or emitting store changes", 1)
@@ -254,6 +255,57 @@ func c16(r *core.Run) {
 	}
 	if wOK {
 		r.OK("D3", "store/mockstore", "map-writes-only-in-write-transactions", "-", "writes happen under the exclusive lock")
+	}
+
+	// ---- D4 --------------------------------------------------------------
+	{
+		rel := "store/badgerstore"
+		n := 0
+		for _, ac := range core.FieldAccesses(p.FuncsOfPkg(rel), func(f core.Field) bool {
+			return f.Struct == rel+".Store" || f.Struct == rel+".QueryStore"
+		}) {
+			if ac.Kind != "store" {
+				continue
+			}
+			n++
+			fn := ac.Fn
+			st := ac.Instr.(*ssa.Store)
+			fresh := false
+			if fa, ok := st.Addr.(*ssa.FieldAddr); ok {
+				if al, ok := core.Strip(fa.X).(*ssa.Alloc); ok && al.Parent() == fn {
+					fresh = true
+				}
+			}
+			okRecv := false
+			if rcv := fn.Signature.Recv(); rcv != nil {
+				if pt, ok := rcv.Type().Underlying().(*types.Pointer); ok && core.TypeName(pt.Elem()) == ac.F.Struct {
+					okRecv = true
+				}
+			}
+			var cfgOnly func(f *ssa.Function, d int) bool
+			cfgOnly = func(f *ssa.Function, d int) bool {
+				if f.Parent() != nil || d > 4 {
+					return false
+				}
+				cs := p.CallersOf(f)
+				if f.Object() != nil && f.Object().Exported() {
+					if !isConfigFn(f) {
+						return false
+					}
+				} else if len(cs) == 0 {
+					return false
+				}
+				for _, c := range cs {
+					if core.IsGo(c) || !cfgOnly(core.Outermost(c.Parent()), d+1) {
+						return false
+					}
+				}
+				return true
+			}
+			good := fresh || (okRecv && cfgOnly(fn, 0))
+			r.Check(good, "D4", core.FuncName(fn), "store("+ac.F.String()+")", p.InstrPos(ac.Instr), "written by a constructor or an exported configuration method of the store itself that no runtime path calls", "a store field is written outside configuration (in a function transactions or queries reach): transactions on different ids hold different key locks and run in parallel, so the write races with every reader of the field")
+		}
+		r.Analysed["badgerstore_field_stores"] = n
 	}
 
 	// ---- O1 --------------------------------------------------------------
